@@ -442,9 +442,9 @@ fn editable_files(sc: &Scenario) -> Vec<(String, bool)> {
     let mut v = vec![];
     for f in &sc.files {
         if let FileKind::File(_) = f.kind {
-            if !f.path.contains("/.zinoma/") {
-                v.push((f.path.clone(), false));
-            }
+            // files under a planted `.zinoma` are edited too: such edits are irrelevant and
+            // must not cause a rebuild
+            v.push((f.path.clone(), false));
         }
     }
     for p in &sc.projects {
@@ -682,7 +682,7 @@ impl Property for C03 {
         "one case = 1-3 generated projects (shared resources, identical command text and identical relative paths in different project directories, X.output across projects) and a history of 2-5 invocations over an untouched tree (different requested sets and spellings; the only edits are touch-only, content identical). Oracle: a target that declares inputs, has a definite model record and whose declared resources are content-equal to that record must not have its script started; a target without inputs must never be skipped. distinct_nontrivial = distinct order hashes among invocations in which a target with a model record was evaluated"
     }
     fn generate(&self, rng: &mut Rng, _case: u64) -> Scenario {
-        gen_history(rng, &HistOpts { io: IoOpts { multi_project_pct: 60, max_targets: 6, cmd_pct: 35 }, max_invocations: 4, edit_pct: 40, touch_only: true, vary_entry: false, clean_pct: 0, fail_pct: 0, corrupt_pct: 0 })
+        gen_history(rng, &HistOpts { io: IoOpts { multi_project_pct: 60, max_targets: 6, cmd_pct: 35 }, max_invocations: 4, edit_pct: 40, touch_only: true, vary_entry: false, clean_pct: 0, fail_pct: 18, corrupt_pct: 0 })
     }
     fn evaluate(&self, sc: &Scenario, root: &Path, stats: &mut Stats) -> Option<Violation> {
         eval_history(sc, root, stats, Some(Which::Complete), any_target, None, nontrivial_decision)
